@@ -20,6 +20,7 @@ import (
 type DirectUDPClient struct {
 	info    zerocopy.UDPClientSessionInfo
 	session zerocopy.UDPClientSession
+	network string
 }
 
 // NewDirectUDPClient creates a new UDP client that makes no changes to the packets.
@@ -36,6 +37,7 @@ func NewDirectUDPClient(name, network string, mtu int, listenConfig conn.ListenC
 			Unpacker:      DirectPacketClientUnpacker{},
 			Close:         zerocopy.NoopClose,
 		},
+		network: network,
 	}
 }
 
@@ -48,7 +50,11 @@ func (c *DirectUDPClient) Info() zerocopy.UDPClientInfo {
 
 // NewSession implements [zerocopy.UDPClient.NewSession].
 func (c *DirectUDPClient) NewSession(ctx context.Context) (zerocopy.UDPClientSessionInfo, zerocopy.UDPClientSession, error) {
-	return c.info, c.session, nil
+	// The packer caches the last resolved domain target and is used by the session's
+	// uplink goroutine without synchronization, so each session needs its own.
+	session := c.session
+	session.Packer = NewDirectPacketClientPacker(c.network, c.info.MTU)
+	return c.info, session, nil
 }
 
 // ShadowsocksNoneUDPClient is a Shadowsocks none UDP client.
